@@ -294,7 +294,7 @@ func (fr *Frame) contractCall(st *State, fc *FuncContract, key string, args []Va
 		// the callee's frame must lie inside the caller's
 		fr.frameCheck(st, a.T, pos)
 		_ = i
-		u.havocAt(st, a.T, a.Typ.Underlying().(*types.Pointer).Elem())
+		u.havocPtr(st, a, a.Typ.Underlying().(*types.Pointer).Elem())
 	}
 	for _, el := range fc.Elems {
 		v, err := env.EvalVal(el)
@@ -321,9 +321,29 @@ func (fr *Frame) contractCall(st *State, fc *FuncContract, key string, args []Va
 			u.set(st, "BS", store(u.get(st, "BS"), base, u.fresh("bs", SStr)))
 			continue
 		}
-		es := u.sorts.sortOf(v.Typ.Underlying().(*types.Slice).Elem())
+		elT := v.Typ.Underlying().(*types.Slice).Elem()
+		es := u.sorts.sortOf(elT)
+		fr.elemRoot = ""
+		if av, err2 := func() (av Val, err error) {
+			defer func() {
+				if r := recover(); r != nil {
+					err = fmt.Errorf("%v", r)
+				}
+			}()
+			return env.addrOf(el), nil
+		}(); err2 == nil && av.Sort == SRef {
+			root := av.T
+			for strings.HasPrefix(root, "(sub ") {
+				inner := root[5 : len(root)-1]
+				root = inner[:strings.LastIndex(inner, " ")]
+			}
+			if root != av.T {
+				fr.elemRoot = root
+			}
+		}
 		fr.frameElem(st, base, pos)
-		u.set(st, "E_"+es, store(u.get(st, "E_"+es), base, u.fresh("el", "(Array Int "+es+")")))
+		fr.elemRoot = ""
+		u.set(st, u.elemComp(elT), store(u.get(st, u.elemComp(elT)), base, u.fresh("el", "(Array Int "+es+")")))
 	}
 	emitted := map[string]bool{}
 	for _, es := range fc.EmitEvents {
@@ -391,6 +411,7 @@ func (fr *Frame) contractCall(st *State, fc *FuncContract, key string, args []Va
 			u.unsupported("%s: ensures of %s: %v", fr.oblFn, key, err)
 			continue
 		}
+		// callee postconditions are visible to every obligation (label scoping applies to the unit's own clauses only)
 		u.assumeRec(implies(st.guard, t), rec)
 	}
 	return rets
@@ -487,13 +508,17 @@ func (fr *Frame) builtin(st *State, b *ssa.Builtin, c *ssa.CallCommon, args []Va
 }
 
 // appendOne appends a single element.
-func (fr *Frame) appendOne(st *State, s Term, es string, x Term) Term {
+func (fr *Frame) appendOne(st *State, s Term, et types.Type, x Term) Term {
 	u := fr.u
-	comp := "E_" + es
+	es := u.sorts.sortOf(et)
+	comp := u.elemComp(et)
 	E := u.get(st, comp)
 	a := u.get(st, "alloc")
 	nb := u.def("nb", SInt, a)
 	u.set(st, "alloc", "(+ "+a+" 1)")
+	if fr.curSliceTag != 0 {
+		u.assume(implies(st.guard, fmt.Sprintf("(= (basetype %s) %d)", nb, fr.curSliceTag)))
+	}
 	inplace := u.def("inpl", SBool, "(< (slen "+s+") (scap "+s+"))")
 	// copied prefix for the reallocation case
 	cp := u.fresh("cp", "(Array Int "+es+")")
@@ -519,17 +544,19 @@ func (fr *Frame) appendOp(st *State, c *ssa.CallCommon, args []Val, pos token.Po
 	}
 	et := st0.Underlying().(*types.Slice).Elem()
 	es := u.sorts.sortOf(et)
+	fr.curSliceTag = u.P.tagOf(types.NewSlice(et))
+	defer func() { fr.curSliceTag = 0 }()
 	if v.ConstLen > 0 {
 		n := v.ConstLen - 1
 		cur := s.T
 		for i := 0; i < n; i++ {
-			x := sel(sel(u.get(st, "E_"+es), "(sbase "+v.T+")"), fmt.Sprintf("(+ (soff %s) %d)", v.T, i))
-			cur = fr.appendOne(st, cur, es, u.def("appx", es, x))
+			x := sel(sel(u.get(st, u.elemComp(et)), "(sbase "+v.T+")"), fmt.Sprintf("(+ (soff %s) %d)", v.T, i))
+			cur = fr.appendOne(st, cur, et, u.def("appx", es, x))
 		}
 		return Val{T: cur, Sort: SSlice, Typ: st0}
 	}
 	// general case: a fresh backing array holding both parts
-	E := u.get(st, "E_"+es)
+	E := u.get(st, u.elemComp(et))
 	a := u.get(st, "alloc")
 	nb := u.def("nb", SInt, a)
 	u.set(st, "alloc", "(+ "+a+" 1)")
@@ -538,7 +565,7 @@ func (fr *Frame) appendOp(st *State, c *ssa.CallCommon, args []Val, pos token.Po
 	u.assume(fmt.Sprintf("(forall ((%s Int)) (=> (and (<= 0 %s) (< %s (slen %s))) (= (select %s %s) (select (select %s (sbase %s)) (+ (soff %s) %s)))))", q, q, q, s.T, cp, q, E, s.T, s.T, q))
 	q2 := u.freshName("q")
 	u.assume(fmt.Sprintf("(forall ((%s Int)) (=> (and (<= 0 %s) (< %s (slen %s))) (= (select %s (+ (slen %s) %s)) (select (select %s (sbase %s)) (+ (soff %s) %s)))))", q2, q2, q2, v.T, cp, s.T, q2, E, v.T, v.T, q2))
-	u.set(st, "E_"+es, store(E, nb, cp))
+	u.set(st, u.elemComp(et), store(E, nb, cp))
 	ncap := u.fresh("ncap", SInt)
 	u.assume("(>= " + ncap + " (+ (slen " + s.T + ") (slen " + v.T + ")))")
 	u.notes = append(u.notes, fmt.Sprintf("%s: append(s, t...) at %s modelled as always reallocating", fr.oblFn, fr.pos(pos)))
@@ -558,14 +585,17 @@ func (fr *Frame) writeSet(li *loopInfo) map[string]bool {
 }
 
 func (u *Unit) sortsIn(t types.Type, prefix string, ws map[string]bool) {
-	if st, ok := t.Underlying().(*types.Struct); ok {
+	if isStructType(t) {
 		si := u.sorts.structOf(t)
 		if si.opaque {
 			return
 		}
-		_ = st
-		for _, f := range si.fields {
-			u.sortsIn(f.typ, prefix, ws)
+		for i, f := range si.fields {
+			if isStructType(f.typ) {
+				u.sortsIn(f.typ, prefix, ws)
+			} else if f.sort != SUnit {
+				ws[u.fieldComp(t, i)] = true
+			}
 		}
 		return
 	}
@@ -582,7 +612,14 @@ func (u *Unit) blockWrites(b *ssa.BasicBlock, ws map[string]bool, seen map[*ssa.
 			if isElemAddr(x.Addr) {
 				et := elemTypeOf(x.Addr)
 				if et != nil {
-					ws["E_"+u.sorts.sortOf(et)] = true
+					ws[u.elemComp(et)] = true
+				}
+			} else if fa, ok := x.Addr.(*ssa.FieldAddr); ok {
+				stT := fa.X.Type().Underlying().(*types.Pointer).Elem()
+				if isStructType(x.Val.Type()) {
+					u.sortsIn(x.Val.Type(), "H_", ws)
+				} else if u.sorts.sortOf(x.Val.Type()) != SUnit && !u.sorts.structOf(stT).opaque {
+					ws[u.fieldComp(stT, fa.Field)] = true
 				}
 			} else {
 				u.sortsIn(x.Val.Type(), "H_", ws)
@@ -595,7 +632,7 @@ func (u *Unit) blockWrites(b *ssa.BasicBlock, ws map[string]bool, seen map[*ssa.
 		case *ssa.Alloc:
 			et := x.Type().Underlying().(*types.Pointer).Elem()
 			if arr, ok := et.Underlying().(*types.Array); ok {
-				ws["E_"+u.sorts.sortOf(arr.Elem())] = true
+				ws[u.elemComp(arr.Elem())] = true
 			} else {
 				u.sortsIn(et, "H_", ws)
 			}
@@ -603,7 +640,7 @@ func (u *Unit) blockWrites(b *ssa.BasicBlock, ws map[string]bool, seen map[*ssa.
 			if isByteSlice(x.Type()) {
 				ws["BS"] = true
 			} else {
-				ws["E_"+u.sorts.sortOf(x.Type().Underlying().(*types.Slice).Elem())] = true
+				ws[u.elemComp(x.Type().Underlying().(*types.Slice).Elem())] = true
 			}
 		case *ssa.MakeMap:
 			ws["MD_"+u.sorts.sortOf(x.Type().Underlying().(*types.Map).Elem())] = true
@@ -724,14 +761,32 @@ func (u *Unit) contractWrites(fc *FuncContract, ws map[string]bool, ptypes []typ
 			continue
 		}
 		if t := u.staticType(a, vars); t != nil {
+			if sel, ok := a.(ESel); ok && !isStructType(t) {
+				// a field of primitive type: exactly one component
+				ct := u.staticType(sel.X, vars)
+				if ct != nil {
+					if p, ok := ct.Underlying().(*types.Pointer); ok {
+						ct = p.Elem()
+					}
+					if stt, ok := ct.Underlying().(*types.Struct); ok {
+						if path, _ := fieldPath(stt, sel.Name); path != nil {
+							for _, i := range path[:len(path)-1] {
+								ct = u.sorts.structOf(ct).fields[i].typ
+							}
+							if u.sorts.sortOf(t) != SUnit {
+								ws[u.fieldComp(ct, path[len(path)-1])] = true
+							}
+							continue
+						}
+					}
+				}
+			}
 			u.sortsIn(t, "H_", ws)
 			continue
 		}
 		if c, ok := a.(ECall); ok {
 			if c.Fun == "pointee" {
-				for _, s := range []string{SInt, SBool, SStr, SRef, SIface, SSlice, SReal} {
-					ws["H_"+s] = true
-				}
+				u.allHeap(ws)
 				continue
 			}
 			if _, isG := u.P.CS.GhostMaps[c.Fun]; isG {
@@ -740,9 +795,7 @@ func (u *Unit) contractWrites(fc *FuncContract, ws map[string]bool, ptypes []typ
 			}
 		}
 		// unknown type (ghost field or unresolved): be conservative
-		for _, s := range []string{SInt, SBool, SStr, SRef, SIface, SSlice, SReal} {
-			ws["H_"+s] = true
-		}
+		u.allHeap(ws)
 		for k := range u.compSort {
 			if strings.HasPrefix(k, "G_") {
 				ws[k] = true
@@ -759,12 +812,12 @@ func (u *Unit) contractWrites(fc *FuncContract, ws map[string]bool, ptypes []typ
 			if isByteSlice(t) {
 				ws["BS"] = true
 			} else if sl, ok := t.Underlying().(*types.Slice); ok {
-				ws["E_"+u.sorts.sortOf(sl.Elem())] = true
+				ws[u.elemComp(sl.Elem())] = true
 			}
 			continue
 		}
-		for k := range u.sorts.elemSorts {
-			ws["E_"+k] = true
+		for k := range u.elemComps {
+			ws[k] = true
 		}
 		ws["BS"] = true
 	}
@@ -801,7 +854,7 @@ func (u *Unit) callWrites(c *ssa.CallCommon, ws map[string]bool, seen map[*ssa.F
 		switch callee.Name() {
 		case "append":
 			if s, ok := c.Args[0].Type().Underlying().(*types.Slice); ok {
-				ws["E_"+u.sorts.sortOf(s.Elem())] = true
+				ws[u.elemComp(s.Elem())] = true
 			}
 		case "close":
 			ws["ev:Close"] = true
@@ -851,4 +904,9 @@ func (u *Unit) callWrites(c *ssa.CallCommon, ws map[string]bool, seen map[*ssa.F
 	if !pure {
 		ws["*"] = true
 	}
+}
+
+// allHeap marks the whole heap as written (components not yet known included: the caller havocs everything).
+func (u *Unit) allHeap(ws map[string]bool) {
+	ws["*"] = true
 }
